@@ -12,13 +12,16 @@ Definition no_rules : bool -> ann rtag -> list code := fun _ _ => [].
 
 Definition x_str_isalpha := str_isalpha x_isalpha.
 Definition x_prefix_issues := check_invalid_prefix_issues x_isalpha.
-Definition x_set_schema_prefix := set_schema_prefix x_isalpha.
+Definition x_set_schema_prefix (fixed : bool) := set_schema_prefix x_isalpha fixed.
+Definition x_check_tag_formatting (fixed : bool) := check_tag_formatting fixed.
 Definition x_char_issues := char_issues x_isprint.
-Definition x_check_capitalization := check_capitalization upper_ascii lower_ascii.
+Definition x_check_capitalization (fixed : bool) := check_capitalization upper_ascii lower_ascii fixed.
 Definition x_check_required := check_required lower_ascii.
 Definition x_check_unique := check_unique lower_ascii.
-Definition x_verdict := verdict x_isalpha x_isprint lower_ascii upper_ascii lower_ascii no_rules no_rules no_rules.
-Definition x_load_schema_version := load_schema_version x_isalpha.
+(* fixed = true: the code as it is now; fixed = false: before the repairs of C13-F2, F3, F4 *)
+Definition x_verdict (fixed : bool) :=
+  verdict x_isalpha x_isprint lower_ascii upper_ascii lower_ascii fixed no_rules no_rules no_rules.
+Definition x_load_schema_version (fixed : bool) := load_schema_version x_isalpha fixed.
 
 (* a loaded list of schemas as the validator's configuration: one schema -> HedSchema, several -> group *)
 Definition cfg_of (ls : list lschema) : cfg :=
